@@ -104,7 +104,8 @@ OFFERS = ["none", "held", "held-noems", "held-noetm", "ticket-flip-first",
           "ticket-flip-mid", "ticket-flip-last", "unknown-id", "foreign",
           "held-refreshed-clock", "held-other-hash", "held-same-hash",
           "held-copy", "held-no-alpn", "held-other-alpn", "held-other-sni",
-          "held-no-sni", "held-renamed-sni", "held-nocert"]
+          "held-no-sni", "held-renamed-sni", "held-nocert",
+          "held-nocert-stale"]
 # suite the client offers instead of the session's: (other PRF hash / other
 # suite, same hash) per original cipher name
 OTHER = {"aes128gcm": ("aes256gcm", "chacha20-poly1305"),
@@ -225,6 +226,16 @@ def apply_offer(st, offer):
         # more): resumed, the original identity stands; declined, the full
         # handshake is an unauthenticated one
         cset["_nocert"] = True
+    elif offer == "held-nocert-stale":
+        # the same from a client that also keeps offering the ticket after
+        # its lifetime (the server sees, decrypts and declines it)
+        cset["_nocert"] = True
+        if tls13:
+            for t in sess.tickets:
+                t.time = SEAMS.now
+        else:
+            for t in sess.tls_1_0_tickets:
+                t.time_received = SEAMS.now
     elif offer == "held-refreshed-clock":
         # a client whose notion of the ticket's receipt time is wrong keeps
         # offering it after the lifetime
